@@ -68,6 +68,31 @@ def dump_all(force=False, verbose=True):
     return res, th, time.time() - t0
 
 
+def dump_verbose(short):
+    """second dump of one crate with -Zverbose-internals (closure types print with their {closure#N} path); cached per tree"""
+    th = tree_hash()
+    outdir = os.path.join(WORK, 'mir', th[:16])
+    path = os.path.join(outdir, short + '.v.mir')
+    if os.path.exists(path) and os.path.getsize(path) > 1000: return path
+    os.makedirs(outdir, exist_ok=True)
+    tdir = os.path.join(WORK, 'target-nightly')
+    env = dict(os.environ, CARGO_NET_OFFLINE='true', CARGO_TARGET_DIR=tdir, RUSTUP_TOOLCHAIN='nightly')
+    env.pop('RUSTFLAGS', None)
+    for sh, pkg, d, extra in CRATES:
+        if sh != short: continue
+        for fp in glob.glob(os.path.join(tdir, 'debug', '.fingerprint', pkg + '-*')):
+            shutil.rmtree(fp, ignore_errors=True)
+        cmd = ['cargo', 'rustc', '--offline', '-p', pkg, '--lib'] + extra + ['--', '-Zunpretty=mir', '-Zverbose-internals',
+               '-C', 'debug-assertions=off', '-C', 'overflow-checks=on']
+        p = subprocess.run(cmd, cwd=REPO, env=env, stdout=subprocess.PIPE, stderr=subprocess.PIPE)
+        if p.returncode != 0 or len(p.stdout) < 1000:
+            raise RuntimeError('verbose MIR dump failed for %s:\n%s' % (pkg, p.stderr.decode()[-3000:]))
+        tmp = path + '.tmp%d' % os.getpid()
+        open(tmp, 'wb').write(p.stdout); os.replace(tmp, path)
+        return path
+    raise RuntimeError('unknown crate ' + short)
+
+
 if __name__ == '__main__':
     r, th, dt = dump_all(force='--force' in sys.argv)
     print(th, dt)
